@@ -340,6 +340,16 @@ def o_text(case):
     # callers such as ku wrap the text once in the network's parseable_str so that the decode cache is shared by
     # the entry points; three texts out of four are passed that way, the rest as plain str (fresh cache per call)
     shared = NETS[code].parseable_str_type(text) if len(text) % 4 else text
+    if shared is not text and "GRS" in NETS and "BTC" in NETS:
+        # ku tries one text object on every network: a network with the OTHER Base58 checksum function has already looked
+        # at this object; what it concluded is its own business
+        other = NETS["BTC"] if code in GRS else NETS["GRS"]
+        with quiet():
+            for e in ("wif", "p2pkh", "p2sh", "bip32_prv", "bip32_pub"):
+                try:
+                    getattr(other.parse, e)(shared)
+                except Exception:       # noqa - the other network's verdict is not under test here
+                    pass
     for e in ENTRY_POINTS:
         try:
             results[e] = _call(code, e, shared)
